@@ -340,10 +340,12 @@ class Process(Event):
                     # processes.
                     try:
                         exc = type(event._value)(*event._value.args)
+                        if exc.args != event._value.args:
+                            raise TypeError('constructor transforms its args')
                         exc.__cause__ = event._value
-                    except TypeError:
-                        # The constructor does not take the exception's own
-                        # args: hand over the original instance.
+                    except Exception:
+                        # The constructor does not reproduce the exception
+                        # from its own args: hand over the original instance.
                         exc = event._value
                     event = self._generator.throw(exc)
             except StopIteration as e:
